@@ -94,7 +94,7 @@ def eval_cases(ck, rng, n):
         policy = TabPolicy(pspec, env.action_space, env.observation_space)
         det = bool(rng.random() < 0.3)
         mode = int(rng.integers(0, 3))
-        max_steps = int(rng.integers(1, 14)); nep = int(rng.integers(1, 5))
+        max_steps = int(rng.integers(1, 14)); nep = int(rng.choice([1, 2, 4]))  # power of two: the mean over episodes is exact
         seed = int(90_000 * (ck.seed + 1) + i)
         root = jr.key(seed); tree = KeyTree([root]); rp = ((0, 0),)
         ck.current_case = {"spec": spec, "stack": stack, "pspec": pspec, "mode": mode, "seed": seed}
